@@ -20,6 +20,7 @@ func verifH_C05_concurrent() {
 	o := verifOutState(6, 6, w1, wr, wp, 0)
 	c := o.c
 	o.online(verifParam("wfaults", 0))
+	o.conn.slow = true // a write takes time: the other publisher may arrive meanwhile
 	out := c.atLeastOnce
 	if level == 2 {
 		out = c.exactlyOnce
@@ -68,7 +69,7 @@ func verifH_C05_concurrent() {
 		verifAssert(who == 0 || who == 1, "C01: stored record is not one of the two publishes")
 		seen[who] = true
 		p := verifRefPublish(false, level, false, []byte{t}, uint16(ids[k]), []byte{'m'})
-		entries = append(entries, verifEntry{id: ids[k], packet: p, written: pre.acceptN+uint(k) < post.submitN})
+		entries = append(entries, verifEntry{id: ids[k], packet: p})
 	}
 	verifAssert(seen[0] && seen[1], "C01: one of the two accepted publishes has no record")
 	// the wire carries whole packets in identifier order (unless a write broke)
@@ -76,6 +77,18 @@ func verifH_C05_concurrent() {
 	verifAssert(ok, "C08: malformed packet on the wire")
 	if o.conn.wfaults == verifParam("wfaults", 0) {
 		verifAssert(len(rest) == 0, "C08: incomplete packet without a write fault (interleaved writers?)")
+	}
+	faultUsed := o.conn.wfaults != verifParam("wfaults", 0)
+	if !backlog && !faultUsed {
+		verifAssert(len(packets) == 2, "C05: an accepted publish was not written although the client is online without backlog (a concurrent publisher made it look like backlog)")
+	}
+	// written = what the wire shows, not what the counters claim
+	for k := range entries {
+		for _, p := range packets {
+			if verifBytesEq(p, entries[k].packet) {
+				entries[k].written = true
+			}
+		}
 	}
 	if !backlog && len(rest) == 0 && len(packets) == 2 {
 		verifAssert(verifBytesEq(packets[0], entries[0].packet), "C05: with concurrent publishers the first packet on the wire is not the one with the first identifier")
